@@ -14,7 +14,7 @@ ASSUME = ["tolerance model of spec/ManifTrace.tla (working precision 2^10 u scal
           "bundles are covered by C11 (bundle = element-wise) composed with this property on the element groups"]
 
 ALGO_OPS = {"interp", "phi", "avg", "tisapprox", "tarith", "misc"}
-def run(prop, tier, seed, judged, rule, module="ManifTrace", subsample=None, extra_results=None):
+def run(prop, tier, seed, judged, rule, module="ManifTrace", subsample=None, extra_results=None, exhaustive=False):
     rep = vlib.Report(prop, tier, seed)
     rep.assumptions = list(ASSUME)
     keys = KEYS_T if tier == "thorough" else KEYS_Q
@@ -47,7 +47,7 @@ def run(prop, tier, seed, judged, rule, module="ManifTrace", subsample=None, ext
     rep.states += st2[0]; rep.transitions += st2[1]
     if extra_results is not None:
         results = results + extra_results(rep)
-        rep.exhaustive = True
+        rep.exhaustive = exhaustive
     rep.judge(results, judged)
     rep.extra["plan_cells"] = len(cells)
     planned = set((c["op"], c["key"], c["thc"], c["linc"]) for c in cells)
